@@ -7,10 +7,11 @@ import re
 class Box:                       # a variable cell; `var &r = x`, `:=`, parameters and captures share boxes
     # two levels, as in Boxed_Value: the record (this Box: flags + which object) and the object (a one-element list holding the value).
     # `x := y` copies y's record into x's: both records then name one object
-    __slots__ = ("o", "const")
+    __slots__ = ("o", "const", "ret")
 
     def __init__(self, v, const=False):
         self.o, self.const = [v], const
+        self.ret = False            # the record of a by-value C++ result (return-value flag): a parameter bound to it is not assignable
 
     @property
     def v(self):
@@ -88,6 +89,7 @@ def parse(s):
 class Interp:
     def __init__(self, fault_at=10 ** 6, fault_kind="std", max_steps=200000):
         self.out, self.nat, self.ncb = [], [], 0
+        self.overflow = False        # an integer left the int range somewhere, printed or not: the run is outside what this interpreter specifies
         self.fault_at, self.fault_kind = fault_at, fault_kind
         self.funs = {}                     # name -> list of overloads (Fn) in registration order
         self.frames = [[{}]]               # stack of frames; frame = list of scopes (dict name -> Box)
@@ -201,6 +203,8 @@ class Interp:
                 self.declare(n[2][1], b)
                 return rhs
             lhs = self.ev(n[2])
+            if lhs.ret:
+                raise EvalError("assignTemp")             # only a parameter can name such a record (declarations copy or make a new record)
             if lhs.const:
                 raise EvalError("assignConst")
             o = n[1]
@@ -216,6 +220,8 @@ class Interp:
                 raise EvalError("dispatch")
             if type(lhs.v) is int and type(rhs.v) is int:
                 lhs.v = lhs.v + rhs.v if o == "+=" else lhs.v - rhs.v if o == "-=" else lhs.v * rhs.v
+                if abs(lhs.v) >= 2 ** 31:
+                    self.overflow = True
                 return lhs
             raise EvalError("dispatch")
         if op == "bin":
@@ -230,7 +236,10 @@ class Interp:
                 if o == "%":
                     r = abs(a) % abs(b)
                     return Box(r if a >= 0 else -r, True)
-                return Box({"+": a + b, "-": a - b, "*": a * b, "<": a < b, "<=": a <= b, ">": a > b, ">=": a >= b, "==": a == b, "!=": a != b}[o], True)
+                res = {"+": a + b, "-": a - b, "*": a * b, "<": a < b, "<=": a <= b, ">": a > b, ">=": a >= b, "==": a == b, "!=": a != b}[o]
+                if type(res) is int and abs(res) >= 2 ** 31:
+                    self.overflow = True
+                return Box(res, True)
             if type(a) is type(b) and type(a) in (bool, str) and o in ("==", "!="):
                 return Box((a == b) == (o == "=="))
             raise EvalError("dispatch")
@@ -308,7 +317,9 @@ class Interp:
                 if fk == "eval":
                     raise EvalError("other")
                 raise Cpp({"runtime": "runtimeError", "range": "outOfRange", "std": "stdException", "nonstd": "nonStd"}[fk])
-            return Box(int(n[1]))
+            b = Box(int(n[1]))
+            b.ret = True
+            return b
         if op == "call":
             args = [self.ev(a) for a in n[2:]]
             f = self.ev(n[1])
@@ -421,5 +432,7 @@ def run_program(sexp, fault_at=10 ** 6, fault_kind="std"):
     except Cont:
         res = "err continue-outside-loop"
     names = ",".join(it.frames[0][0].keys()) if it.frames and it.frames[0] else ""
+    if it.overflow:
+        return "res=INT-RANGE-LEFT i%d out= nat= names=" % (2 ** 40)      # read as 'big integer' by every caller's skip rule
     return "res=%s out=%s nat=%s names=%s" % (res, ",".join(show(x) for x in it.out),
                                              ",".join("%d:%s" % (k, "/".join(show(a) for a in args)) for k, args in it.nat), names)
